@@ -102,7 +102,12 @@ Fixpoint check_from (M : model) (s : m_state M) (i : N) (h : list step_rec) : op
     if m_ambiguous M s' then None
     else if obs_perm exp os && nlist_eqb (nsort (m_blocked M s')) (nsort bl)
          then check_from M s' (N.succ i) r
-         else Some i
+         else
+           (* the step took so long that a timer became (nearly) due within it: the next time-stamp tells *)
+           match r with
+           | (st2, _, _) :: _ => if m_ambiguous M (fst (m_step M s' st2)) then None else Some i
+           | [] => Some i
+           end
   end.
 
 Fixpoint run_model (M : model) (s : m_state M) (h : list stim) : m_state M * list (list obs) :=
